@@ -588,9 +588,15 @@ class Driver:
                 same_history = False
                 continue
             n += 1
-            if (same_history and o.get('digest') != d.get('digest')) or \
-                    (o.get('violation') or {}).get('kind') != (d.get('violation') or {}).get('kind'):
+            if (o.get('violation') or {}).get('kind') != (d.get('violation') or {}).get('kind'):
                 bad.append((d['run'], o.get('digest'), d.get('digest')))
+            elif same_history and o.get('digest') != d.get('digest'):
+                if getattr(self.mod, 'DIGEST_LAYOUT_SENSITIVE', False):
+                    # same verdict, different event sequence: tolerated for engines that declare their event digests
+                    # sensitive to the addresses of objects (see DESIGN.md 11.3), counted in the evidence
+                    self.layout_variants = getattr(self, 'layout_variants', 0) + 1
+                else:
+                    bad.append((d['run'], o.get('digest'), d.get('digest')))
             if o.get('poisoned') or d.get('poisoned'):
                 same_history = False
         return n, bad
@@ -860,7 +866,8 @@ class Driver:
             'harness_errors': len(harness),
             'harness_error_kinds': _count(h.get('harness') for h in harness),
             'determinism_recheck': {'runs_compared': n_det, 'mismatches': len(bad_det),
-                                    'aslr_off': os.environ.get('VERIF_NOASLR') == '1'},
+                                    'aslr_off': os.environ.get('VERIF_NOASLR') == '1',
+                                    'same_verdict_different_digest': getattr(self, 'layout_variants', 0)},
             'unreproducible_violations': unrepro,
             'components': getattr(mod, 'COMPONENTS', {}),
             'known_findings_hit': {k: len(v) for k, v in known_hits.items()},
